@@ -270,12 +270,15 @@ def run_extract(sc, kind):
     fi = sc.tree.func(FUNCS[kind])
     ev = ModelEval(sc.tree, fi, {}, sc.hooks)
     cm.RAW_UNITS[0] = True        # raw numbers remember the unit they are expressed in
+    # mask.all() / mask.any() written as methods are answered like np.all(mask) / np.any(mask): from what the scenario says about that mask
+    cm.REDUCE_HOOK[0] = lambda which, m: sc._all(m) if which == "all" else sc._any(m)
     try:
         if kind == "sphere":
             return ev.invoke(fi, [sc.ds, sc.radius, sc.origin], {}, None)
         return ev.invoke(fi, [sc.ds, sc.sizes["x"], sc.sizes["y"], sc.sizes["z"], sc.origin], {}, None)
     finally:
         cm.RAW_UNITS[0] = False
+        cm.REDUCE_HOOK[0] = None
 
 
 def check_extract(run, tree, mesh_name):
